@@ -7,6 +7,9 @@ VERIF = os.path.dirname(os.path.dirname(os.path.abspath(__file__)))
 REPO = os.environ.get('VERIF_REPO', '/repo')
 GOENV = dict(os.environ, GOFLAGS='-mod=mod', GOPROXY='off', GOSUMDB='off', GOTOOLCHAIN='local', CGO_ENABLED='0')
 NCPU = min(16, os.cpu_count() or 4)
+# one slot per core for forked solver processes; created before any pool forks, so every worker shares it (see portfolio_solve)
+import multiprocessing as _mp
+SOLVER_SLOTS = _mp.get_context('fork').BoundedSemaphore(NCPU)
 
 _scratch = None
 
@@ -119,6 +122,126 @@ def dumper_oracle(reqs):
 
 
 # ----------------------------------------------------------------------------- solving
+def portfolio_solve(fs, timeout_s, on_sat=None, variants=8, stagger_s=None, grace_s=None):
+    """Decide the conjunction of the z3 formulas `fs` with a restart portfolio, every attempt in a forked child that is killed
+    at a hard deadline (z3's own timeout is a request: it has been seen to return after 857 s when asked for 180 s).
+
+    Variant 0 is the query as built. z3's run time on the lifted R1CS queries is heavy-tailed in the ORDER of the assertions
+    (same formula set: 12 s in one order, no answer in 850 s in another), so when variant 0 has not answered after `stagger_s`
+    the other variants start beside it: the same formulas, shuffled with a fixed per-variant seed, solver random_seed = variant.
+    Every variant decides the same formula set, so the first definitive verdict (sat / unsat) is the verdict; `unknown` is returned
+    only when no variant answered before its deadline. `on_sat(solver)` runs in the child that found the model and must return
+    picklable data (the model never crosses the process boundary otherwise).
+    Solver processes of all pool workers share SOLVER_SLOTS (one per core): variant 0 waits for a slot, the extra variants only
+    take slots that are free, so a tree on which many queries are hard does not starve the easy ones.
+    Returns (verdict, seconds from start to verdict, on_sat payload or None, info dict)."""
+    import pickle, random, select, signal
+    stagger_s = min(timeout_s, stagger_s if stagger_s is not None else max(20.0, timeout_s / 8.0))
+    grace_s = grace_s if grace_s is not None else (150.0 if on_sat else 15.0)
+    fs = list(fs)
+    live = {}          # read fd -> (pid, variant, hard deadline)
+    bufs = {}
+    info = {'variants_started': 0, 'answers': []}
+
+    def start(k, block):
+        if not SOLVER_SLOTS.acquire(block):
+            return False
+        r, w = os.pipe()
+        sys.stdout.flush()
+        sys.stderr.flush()
+        pid = os.fork()
+        if pid == 0:
+            try:
+                os.close(r)
+                import z3
+                fl = list(fs)
+                s = z3.SimpleSolver()
+                if k:
+                    random.Random(k).shuffle(fl)
+                    s.set('random_seed', k)
+                s.set('timeout', int(timeout_s * 1000))
+                s.add(*fl)
+                t = time.time()
+                v = str(s.check())
+                secs = time.time() - t
+                payload = on_sat(s) if (v == 'sat' and on_sat is not None) else None
+                data = pickle.dumps((v, secs, payload, None))
+            except BaseException as e:  # noqa
+                data = pickle.dumps(('unknown', 0.0, None, repr(e)))
+            try:
+                with os.fdopen(w, 'wb') as f:
+                    f.write(data)
+            finally:
+                os._exit(0)
+        os.close(w)
+        live[r] = (pid, k, time.time() + timeout_s + grace_s)
+        bufs[r] = b''
+        info['variants_started'] += 1
+        return True
+
+    def reap(fd, kill=False):
+        pid, k, _ = live.pop(fd)
+        if kill:
+            try:
+                os.kill(pid, signal.SIGKILL)
+            except OSError:
+                pass
+        try:
+            os.waitpid(pid, 0)
+        except OSError:
+            pass
+        os.close(fd)
+        SOLVER_SLOTS.release()
+        return k
+
+    verdict, payload, won = 'unknown', None, None
+    pending = list(range(1, variants))
+    try:
+        start(0, True)
+        t0 = time.time()
+        while True:
+            now = time.time()
+            # extra variants: after the stagger (or as soon as variant 0 gave up), while the query's own budget lasts, on free slots only
+            if pending and now - t0 < timeout_s and (now - t0 >= stagger_s or not live):
+                while pending and start(pending[0], False):
+                    pending.pop(0)
+            if not live:
+                if pending and now - t0 < timeout_s:
+                    time.sleep(1.0)
+                    continue
+                break
+            nxt = min(d for _, _, d in live.values())
+            if pending:
+                nxt = min(nxt, max(t0 + stagger_s, now + 1.0))
+            ready, _, _ = select.select(list(live), [], [], max(0.0, min(nxt - now, 5.0)))
+            for fd in ready:
+                chunk = os.read(fd, 1 << 20)
+                if chunk:
+                    bufs[fd] += chunk
+                    continue
+                data = bufs.pop(fd)
+                k = reap(fd)
+                try:
+                    v, secs, pl, err = pickle.loads(data)
+                except Exception as e:  # noqa
+                    v, secs, pl, err = 'unknown', 0.0, None, 'no answer from child: %r' % (e,)
+                info['answers'].append({'variant': k, 'verdict': v, 'secs': round(secs, 2), **({'error': err} if err else {})})
+                if v in ('sat', 'unsat') and won is None:
+                    verdict, payload, won = v, pl, k
+            if won is not None:
+                break
+            now = time.time()
+            for fd in [fd for fd, (_, _, d) in live.items() if d <= now]:
+                k = reap(fd, kill=True)
+                bufs.pop(fd, None)
+                info['answers'].append({'variant': k, 'verdict': 'killed at the hard deadline'})
+    finally:
+        for fd in list(live):
+            reap(fd, kill=True)
+    info['variant'] = won
+    return verdict, time.time() - t0, payload, info
+
+
 def z3_check(solver, timeout_s):
     import z3
     solver.set('timeout', int(timeout_s * 1000))
